@@ -348,6 +348,17 @@ def concretize_type(t, reg: Registry):
         return typing.Annotated[concretize_type(t[1], reg), "verif-annotation"]
     if tag == "dc":
         return _dc_class(t, reg)
+    if tag in ("tvarc", "tvarb"):
+        # a TypeVar with constraints (meaning: the union of the constraints, in order) / with a bound (meaning: the bound)
+        if not hasattr(reg, "typevars"):
+            reg.typevars = {}
+        key = jkey(t)
+        if key not in reg.typevars:
+            if tag == "tvarc":
+                reg.typevars[key] = typing.TypeVar(t[1], *[concretize_type(m, reg) for m in t[2][1]])
+            else:
+                reg.typevars[key] = typing.TypeVar(t[1], bound=concretize_type(t[2], reg))
+        return reg.typevars[key]
     if tag == "fwd" and t[1] == "#self":
         return typing.Self                # <<"fwd", "#self", U>>: the annotation typing.Self (U is its unfolded meaning, spec side only)
     if tag == "fwd":
